@@ -32,7 +32,7 @@ HDR = ("From OP Require Import gen.Consts model.Base model.Stream model.Totality
 ERR = {"ZeroDivisionError": 1, "IndexError": 2, "KeyError": 3, "AttributeError": 4, "ValueError": 5, "TypeError": 7}
 BOOL_OPTS = ["DO_BALANCED_CC", "DO_VERTICAL_GCC", "DO_ASSITED_HT", "DO_DIRECT_OPERATION_TARGETING", "DO_DIRECT_SITE_TARGETING"]
 UNMODELLED = ["DO_EXERGY_TARGETING", "DO_PROCESS_HP_TARGETING", "DO_UTILITY_HP_TARGETING", "DO_TURBINE_WORK", "DO_TURBINE_TARGETING"]
-SHAPES = ["single", "onlyhot", "onlycold", "iso", "zerodt", "dup", "unused_ut", "zeroq", "tiny", "seplabel"]
+SHAPES = ["single", "onlyhot", "onlycold", "iso", "zerodt", "dup", "unused_ut", "zeroq", "tiny", "seplabel", "glidecw", "glidecw"]
 
 
 def S(zone, name, ts, tt, q, dt=5.0, htc=1.0):
@@ -80,7 +80,7 @@ def gen_case(rng, force_shape=None):
         cp = rng.choice([0.5, 1.0, 1.5, 2.0, 4.0])
         q = cp * abs(ts - tt)
         if shape == "iso" and (i == 0 or rng.random() < 0.3):
-            tt, q = ts, rng.choice([10.0, 25.0, 0.0])
+            tt, q = ts, rng.choice([10.0, 25.0, 0.0, -30.0, -300.0])      # negative duty = isothermal HOT stream
         if shape == "zeroq" and (i == 0 or rng.random() < 0.3):
             q = 0.0
         if shape == "tiny" and i == 0:
@@ -93,9 +93,16 @@ def gen_case(rng, force_shape=None):
     utils = []
     if shape == "unused_ut" or rng.random() < 0.5:
         for j, t in enumerate(rng.sample(range(30, 420, 10), rng.randint(0 if shape != "unused_ut" else 1, 2))):
-            utils.append(U(f"HU{j}", rng.choice(["Hot", "Hot", "Both"]), t, t if rng.random() < 0.5 else t - 10.0, rng.choice([0.0, 5.0, 10.0]), 20.0 + j))
+            utils.append(U(f"HU{j}", rng.choice(["Hot", "Hot", "Both"]), t, t if rng.random() < 0.5 else t - rng.choice([10.0, 10.0, 40.0]), rng.choice([0.0, 5.0, 10.0]), 20.0 + j))
         for j, t in enumerate(rng.sample(range(-20, 250, 10), rng.randint(0 if shape != "unused_ut" else 1, 2))):
-            utils.append(U(f"CU{j}", "Cold", t, t if rng.random() < 0.5 else t + 10.0, rng.choice([0.0, 5.0, 10.0]), 5.0 + j))
+            utils.append(U(f"CU{j}", "Cold", t, t if rng.random() < 0.5 else t + rng.choice([10.0, 40.0, 80.0]), rng.choice([0.0, 5.0, 10.0]), 5.0 + j))
+    if shape == "glidecw":
+        # a cold utility with a long glide below a hot stream (and an isothermal hot stream): the cold duties may stay below the
+        # demand, which exercises the exhausted-utility path of the net-segment builder
+        lo = min(min(s["t_supply"], s["t_target"]) for s in streams)
+        streams.append(S(zones[0], "Hg", lo + 70.0, lo, 800.0, 5.0))
+        streams.append(S(zones[0], "Cg", lo + 50.0, lo + 120.0, 500.0, 5.0))
+        utils = [U("CWg", "Cold", lo - 15.0, lo - 15.0 + rng.choice([45.0, 75.0, 85.0]), 5.0, 2.0)]
     opts = {o: (rng.random() < 0.5) for o in BOOL_OPTS if rng.random() < 0.8}
     if rng.random() < 0.18:
         opts["DO_AREA_TARGETING"] = True
@@ -277,8 +284,17 @@ def classify_raise(item, ob, verdict):
             return "area-targeting-degenerate-raises"
         if ob["msg"].startswith("Composite curve arrays cannot be empty") and has_zero_duty_zone(item["case"]):
             return "area-targeting-zero-duty-zone-raises"
+        if ob["msg"].startswith("The temperature driving force plot requires the inputted composite curves to be balanced") \
+                and any(u["type"] in ("Cold", "Both") and u["t_supply"] != u["t_target"] for u in item["case"]["utilities"]):
+            # consequence of finding D24: a gliding cold user utility is undersupplied, so the balanced curves do not balance
+            return "area-targeting-unbalanced-glide-utility"
     if verdict and verdict[0] == 5 and ob["exc"] == "ValueError" and ob["msg"].startswith("Infeasible temperature interval"):
         return "grid-gap-within-tol-raises"
+    if ob["exc"] == "IndexError" and "clean_composite_curve_ends" in ob["frames"]:
+        # D45 end to end: np.isclose's relative tolerance (1e-5*|H|) swallows a vertex whose duty is below 1e-5 of the curve's enthalpy
+        duties = [abs(s["heat_flow"]) for s in item["case"]["streams"]]
+        if duties and max(duties) >= 1e4 and any(0.0 < d <= 1.5e-5 * sum(duties) for d in duties):
+            return "clean-ends-relative-tolerance-indexerror"
     return "service-raises"
 
 
@@ -399,6 +415,8 @@ def service_suite(ctx):
                                                                            dict(name="Z1", type="Process Zone", children=None)])),
              shape="gen", vu=False),                                                                                                       # D42: a declared zone without streams
         dict(case=dict(streams=[S("Z0", "H", 200.0, 100.0, 100.0), S("Z0", "C", 50.0, 100.000001, 100.0)], utilities=[], options={}), shape="tiny", vu=False),  # D43, ordinary spans
+        dict(case=dict(streams=[S("Z0", "H", 290.0, 40.0, 64000.0, 5.0), S("Z0", "C", 300.0, 310.0, 0.25, 0.0)], utilities=[], options={}),
+             shape="gen", vu=False),                                                                                                       # D45 end to end: IndexError in clean_composite_curve_ends
     ]
     items = corpus + [gen_case(ctx.rng) for _ in range(n)]
     res = judge_items(ctx, items, "service")
@@ -426,7 +444,8 @@ def service_suite(ctx):
             mism += 1
         else:
             bad += 1
-        if reported.get(kind, 0) >= 1 or sum(reported.values()) >= 6:
+        # every distinct kind is reported once (kinds listed as open findings must never use up the budget of unlisted ones)
+        if reported.get(kind, 0) >= 1:
             continue
         reported[kind] = 1
 
